@@ -8,5 +8,6 @@ func main() {
 		"c28": c28,
 		"c27": c27,
 		"c41": c41,
+		"repro": repro,
 	})
 }
